@@ -377,6 +377,11 @@ def run(ck, fx, cg, tier, feeny=False, rule="R9.table"):
     # swallowed Result; no success exit after a failure), evaluated as one presupposition
     _sh.presuppose(ck, fx, cg, "C10", lambda o: o["rule"] in ("R10.propagate", "R10.noexit0"), "R9.fails",
                    "a failing built-in fails the program (its error reaches the exit status)", floor=10)
+    # the operands range over all of i32: every integer literal of the source denotes its value (the NUMBER terminal and
+    # the Number alternative: sign included in the token, parsed as one i32) — C07's obligations on them
+    _sh.presuppose(ck, fx, cg, "C07", lambda o: (o["rule"] == "R7.tree" and o["key"].startswith("Number ::=")) or (o["rule"] == "R7.lexer" and o["key"] == "NUMBER")
+                   or (o["rule"] == "R7.tree" and o["key"] == "every documented form exists"), "R9.range",
+                   "integer literals denote their value over the whole 32-bit range", floor=2)
     # wrapping forms are present where S4 says wrapping (positive evidence for + - *)
     # ---------------------------------------------------------------- arity
     from . import c14_templates
